@@ -1,0 +1,124 @@
+//! Read-only views of private store state for the verif monitor.
+
+use std::sync::atomic::Ordering;
+use std::sync::Arc;
+
+use crossbeam_epoch as epoch;
+
+use super::FeoxStore;
+
+#[derive(Clone, Debug)]
+pub struct VerifEntry {
+    pub key: Vec<u8>,
+    pub timestamp: u64,
+    pub ttl_expiry: u64,
+    pub value_len: usize,
+    pub sector: u64,
+    pub resident: bool,
+    pub deferred: bool,
+    pub addr: usize,
+}
+
+#[derive(Clone, Debug, Default)]
+pub struct VerifSnapshot {
+    /// Every hash-table entry.
+    pub entries: Vec<VerifEntry>,
+    /// Every ordered-index slot: (key, address of the record it points at).
+    pub tree: Vec<(Vec<u8>, usize)>,
+    pub free_by_start: Vec<(u64, u64)>,
+    pub free_by_size: Vec<(u64, u64)>,
+    pub total_free: u64,
+    pub free_chunks: usize,
+    pub largest_free: u64,
+    pub disk_usage: u64,
+    pub record_count: u32,
+    pub memory_usage: usize,
+    pub cache_memory: usize,
+    pub keys_with_ttl: u64,
+    pub device_size: u64,
+    pub format_version: u32,
+    pub pending: Option<crate::storage::write_buffer::VerifPending>,
+}
+
+impl FeoxStore {
+    pub fn verif_snapshot(&self) -> VerifSnapshot {
+        let mut snapshot = VerifSnapshot::default();
+        self.hash_table.scan(|key, record| {
+            snapshot.entries.push(VerifEntry {
+                key: key.clone(),
+                timestamp: record.timestamp,
+                ttl_expiry: record.ttl_expiry.load(Ordering::Acquire),
+                value_len: record.value_len,
+                sector: record.sector.load(Ordering::Acquire),
+                resident: record.value.read().is_some(),
+                deferred: record.value_source().is_some(),
+                addr: Arc::as_ptr(record) as usize,
+            });
+        });
+        {
+            let guard = &epoch::pin();
+            for entry in self.tree.iter() {
+                let record = entry.value().load(guard);
+                snapshot
+                    .tree
+                    .push((entry.key().clone(), Arc::as_ptr(record) as usize));
+            }
+        }
+        {
+            let free_space = self.free_space.read();
+            let (by_start, by_size) = free_space.verif_runs();
+            snapshot.free_by_start = by_start;
+            snapshot.free_by_size = by_size;
+            snapshot.total_free = free_space.get_total_free();
+            snapshot.free_chunks = free_space.get_free_chunks_count();
+            snapshot.largest_free = free_space.get_largest_free_chunk();
+        }
+        snapshot.disk_usage = self.stats.disk_usage.load(Ordering::Relaxed);
+        snapshot.record_count = self.stats.record_count.load(Ordering::Relaxed);
+        snapshot.memory_usage = self.stats.memory_usage.load(Ordering::Relaxed);
+        snapshot.cache_memory = self.stats.cache_memory.load(Ordering::Relaxed);
+        snapshot.keys_with_ttl = self.stats.keys_with_ttl.load(Ordering::Relaxed);
+        snapshot.device_size = self.device_size;
+        snapshot.format_version = self.format_version;
+        snapshot.pending = self.write_buffer.as_ref().map(|wb| wb.verif_pending());
+        snapshot
+    }
+
+    /// (timestamp, ttl_expiry, value_len, sector, resident) of one key, if present.
+    pub fn verif_entry(&self, key: &[u8]) -> Option<VerifEntry> {
+        self.hash_table.read(key, |key, record| VerifEntry {
+            key: key.clone(),
+            timestamp: record.timestamp,
+            ttl_expiry: record.ttl_expiry.load(Ordering::Acquire),
+            value_len: record.value_len,
+            sector: record.sector.load(Ordering::Acquire),
+            resident: record.value.read().is_some(),
+            deferred: record.value_source().is_some(),
+            addr: Arc::as_ptr(record) as usize,
+        })
+    }
+
+    pub fn verif_cache(&self) -> Option<Arc<crate::core::cache::ClockCache>> {
+        self.cache.clone()
+    }
+
+    pub fn verif_format_version(&self) -> u32 {
+        self.format_version
+    }
+
+    pub fn verif_pending(&self) -> Option<crate::storage::write_buffer::VerifPending> {
+        self.write_buffer.as_ref().map(|wb| wb.verif_pending())
+    }
+
+    #[cfg(target_os = "linux")]
+    pub fn verif_file_id(&self) -> Option<crate::verif::FileId> {
+        self.disk_io.as_ref().map(|disk_io| disk_io.read().verif_file_id())
+    }
+
+    #[cfg(target_os = "linux")]
+    pub fn verif_uses_uring(&self) -> bool {
+        self.disk_io
+            .as_ref()
+            .is_some_and(|disk_io| disk_io.read().verif_uses_uring())
+    }
+}
